@@ -122,8 +122,8 @@ theorem post_ite {α : Type} {Q : α → Prop} {c : Prop} [Decidable c] {p q : P
     (hp : Post Q p) (hq : Post Q q) : Post Q (if c then p else q) := by
   split <;> assumption
 
-theorem colLoop_len (g : Bool) (n : Nat) (acc : List TI) :
-    Post (fun l => l.length = n + acc.length) (colLoop g n acc) := by
+theorem colLoop_len (fx : Bool) (g : Bool) (n : Nat) (acc : List TI) :
+    Post (fun l => l.length = n + acc.length) (colLoop fx g n acc) := by
   induction n generalizing acc with
   | zero => unfold colLoop; exact post_pure (by simp)
   | succ n ih =>
@@ -136,21 +136,21 @@ theorem colLoop_len (g : Bool) (n : Nat) (acc : List TI) :
 
 def MetaOk (m : Meta) : Prop := m.cols.length ≤ m.colCount
 
-theorem metaTail_ok (flags colCount : Nat) : Post MetaOk (metaTail flags colCount) := by
+theorem metaTail_ok (fx : Bool) (flags colCount : Nat) : Post MetaOk (metaTail fx flags colCount) := by
   unfold metaTail
   refine post_bind_any (fun _ => ?_)
   refine post_ite (post_pure (by simp [MetaOk])) ?_
   refine post_bind_any (fun _ => ?_)
   refine post_bind_any (fun _ => ?_)
-  refine post_bind _ (colLoop_len _ colCount []) (fun cols hc => ?_)
+  refine post_bind _ (colLoop_len fx _ colCount []) (fun cols hc => ?_)
   refine post_bind_any (fun _ => ?_)
   exact post_pure (by simp [MetaOk] at *; omega)
 
-theorem parseResultMetadata_ok : Post MetaOk parseResultMetadata := by
+theorem parseResultMetadata_ok (fx : Bool) : Post MetaOk (parseResultMetadata fx) := by
   unfold parseResultMetadata
   refine post_bind_any (fun _ => ?_)
   refine post_bind_any (fun _ => ?_)
-  exact post_ite post_fail (metaTail_ok _ _)
+  exact post_ite post_fail (metaTail_ok fx _ _)
 
 def FrameOk : Frame → Prop
   | .rows m _ => MetaOk m
@@ -174,7 +174,7 @@ theorem parseResultFrame_ok (fx : Bool) (proto : Nat) : Post FrameOk (parseResul
   refine post_bind_any (fun kind => ?_)
   refine post_ite (post_pure trivial) ?_
   refine post_ite ?_ (by post_simple)
-  refine post_bind _ parseResultMetadata_ok (fun m hm => ?_)
+  refine post_bind _ (parseResultMetadata_ok fx) (fun m hm => ?_)
   refine post_bind_any (fun n => ?_)
   exact post_ite post_fail (post_pure hm)
 
